@@ -86,6 +86,21 @@ CHECKS = {
              "ClassicalDedekindReals.sig_forall_dec, sig_not_dec and FunctionalExtensionality.functional_extensionality_dep for "
              "the theorems stated over R; the Z/list theorems are closed.",
         technique="Coq proof (induction, permutation arguments, reals) + bit-exact correspondence incl. exhaustive rank patterns"),
+    "C01": dict(
+        cat="proof",
+        text="Theorems (Props/C01.v, over the reals, all n >= 4, all y, all non-negative w with two positive entries, all "
+             "lambda > 0): the generic Gallina model of ws2d (literal LDL' elimination with its special first/last rows and back "
+             "substitution) has positive pivots (no division by zero), solves (W + lambda D'D) z = W y row by row (D' justified "
+             "by a proved summation-by-parts lemma, the 1,-2|5,-4|6,-4|5,-2|1 coefficients derived from D), and is the unique "
+             "minimiser of the penalised least-squares objective. The same term instantiated at binary64 is compared bit-for-bit "
+             "with the compiled kernel (n to 400/1000), instantiated at Q it is compared with the source run on Fractions; the "
+             "float64 1e-6 clause is measured against exact rationals on every run (not proved).",
+        ref="7 (C01), 9",
+        note="Trusted: Coq kernel + vm_compute; harness; the float clause is measured, and fails on ill-conditioned systems "
+             "(known finding C01-illconditioned-float-clause, cond >= 1e10) where no binary64 algorithm can meet it. Axioms "
+             "(Print Assumptions): ClassicalDedekindReals.sig_forall_dec, sig_not_dec, Classical_Prop.classic, "
+             "FunctionalExtensionality.functional_extensionality_dep (the standard library's real numbers).",
+        technique="Coq proof over R (LDL' recurrences, summation by parts, positive definiteness) + bit-exact and exact-rational correspondence"),
 }
 
 PENDING = "no check has been built for this property yet (work in progress; see DESIGN.md section 7 for the plan)"
